@@ -65,7 +65,7 @@ class GenModel(nn.Module):
         return outs[0] if len(outs) == 1 else tuple(outs)
 
 
-N_DATA = {"loginv": 1, "grouplog": 1, "act": 2, "poly": 3, "mixed": 2, "between": 1, "scalar": 0, "prior": 0, "ops2": 2}
+N_DATA = {"loginv": 1, "grouplog": 1, "act": 2, "poly": 3, "mixed": 2, "between": 1, "scalar": 0, "prior": 0, "ops2": 2, "landmark": 1}
 
 
 def _as_group(p, ps):
@@ -122,6 +122,13 @@ def _resid(rs, P, kinds, data):
         else:
             out = G.Jinvp(a).tensor()
         out = out - data[1]
+    elif t == "landmark":
+        # pose and landmarks both trainable: the acted points are a Euclidean parameter (3 numbers per point)
+        G = _as_group(P[rs["pg"]], kinds[rs["pg"]])
+        if G.ndim > 1:
+            G = G.unsqueeze(-2)
+        pts = P[rs["pe"]].reshape(-1, 3)
+        out = G.Act(pts) - data[0]
     elif t == "scalar":
         out = P[rs["p"]].reshape(1)
     elif t == "prior":
@@ -171,6 +178,10 @@ def make_data(spec, seed, dtype):
         elif t == "between":
             ps = spec["params"][rs["p"]]
             data.append(rand_grp(seed, ("d", j), (ps["n"] - 1,), ps["fam"], dtype, 0.3))
+        elif t == "landmark":
+            ps = spec["params"][rs["pg"]]
+            lead = () if ps["n"] == 0 else (ps["n"],)
+            data.append(rng.randn(seed, ("d", j, "obs"), lead + (rs["npts"], 3), dtype))
         elif t == "ops2":
             ps = spec["params"][rs["p"]]
             shape = () if ps["n"] == 0 else (ps["n"],)
@@ -188,8 +199,8 @@ def gen_spec(r, prop, allow_frozen=True):
     Jacobians as truncated series, so 'J is the true Jacobian' is not promised there."""
     fams = ["SO3", "SE3", "RxSO3", "Sim3"]
     exact = ["SO3", "SE3", "RxSO3"] if prop == "C07" else fams
-    arch = r.choice(["loginv", "grouplog", "act", "poly", "mixed", "between", "two", "two", "scalar", "ops2"] if prop == "C08"
-                    else ["loginv", "grouplog", "act", "poly", "mixed", "between", "two", "two", "two", "ops2", "ops2"])
+    arch = r.choice(["loginv", "grouplog", "act", "poly", "mixed", "between", "two", "two", "scalar", "ops2", "landmark"] if prop == "C08"
+                    else ["loginv", "grouplog", "act", "poly", "mixed", "between", "two", "two", "two", "ops2", "ops2", "landmark"])
     nmax = 3 if prop == "C08" else 2
     params, residuals = [], []
 
@@ -235,6 +246,12 @@ def gen_spec(r, prop, allow_frozen=True):
             fam_ok = exact if (prop == "C07" and op in ("retr", "plus", "jinvp")) else (fams if kind == "grp" else exact)
             params.append(lie_param(kind, fam=r.choice(fam_ok)))
             add_resid("ops2", p=len(params) - 1, op=op)
+        elif tpl == "landmark":
+            kind = r.choice(["alg", "grp"])
+            npts = r.randint(2, 3)
+            params.append(lie_param(kind, fam=r.choice(exact if kind == "alg" else fams)))
+            params.append({"kind": "euclid", "k": 3 * npts, "n": 0})
+            add_resid("landmark", pg=len(params) - 2, pe=len(params) - 1, npts=npts)
         elif tpl == "scalar":
             params.append({"kind": "euclid", "k": 1, "n": 0}); add_resid("scalar", p=0)
 
